@@ -130,7 +130,9 @@ fn parse_assignment(input: &str) -> Result<Node, CompilerError> {
 
     // Check for a standalone function call (no '=' in the statement, but has '()')
     // e.g. `~ derp(2, 3, 4)` or `~ merchant_init()`
-    if !input.contains('=')
+    // (`~ temp` declares a variable: it needs its `=`)
+    if !is_temp
+        && !input.contains('=')
         && let Ok(Some((name, args))) = parse_call_like(input)
     {
         return Ok(Node::VoidCall { name, args });
